@@ -1,6 +1,6 @@
 PROP = dict(
     id="C10",
-    lean_modules=["TongoProofs.C10"],
+    lean_modules=["TongoProofs.C10", "TongoProofs.C09"],
     gen=["LiteApi"],
     # the model IS the specification for these: the TL rules applied to the schema text carried in the line
     spec_ops=("tl.enc", "tl.dec", "tl.fenc", "tl.fdec", "tl.req", "tl.ans", "tl.reqdec", "tl.crcid", "tl.schema",
